@@ -613,6 +613,8 @@ def main():
     vlib.proof_phase(ctx, extra_targets=['Extract/ExtractHash.vo'])
     # the same theorems over hash_initialize / hash_type_id as translated from fast_perfect_hash.hpp on this run
     vlib.proof_phase_extra(ctx, 'Properties_C05_source')
+    # vptr_vector::publish_vptrs / dynamic_vptr as translated from policies/vptr_vector.hpp (Gen/GenPub.v)
+    vlib.proof_phase_extra(ctx, 'Properties_pub_source')
     K = gen_consts()
     mdl, log1 = vlib.ocaml_driver('hash_model', 'Extract/ExtractHash.vo', ['ocaml/hash_driver.ml'])
     drv, log2 = vlib.build_cpp('h3_hash', ['harness/h3/hash_driver.cpp'])
